@@ -80,15 +80,23 @@ impl<E: crate::verif_specs::embedded_io::Error> From<E> for HelpError<E> {
 }
 
 pub trait Autocomplete {
+//@ /// GHOST: the command names this type completes to (of every visible group, in declaration order)
+//@ spec fn names() -> Seq<Seq<u8>>;
     // trait is kept available so it's possible to use same where clause
     #[cfg(feature = "autocomplete")]
     /// Try to process autocompletion request
     /// Autocompleted bytes (not present in request) should be written to
     /// given autocompletion.
     fn autocomplete(request: Request<'_>, autocompletion: &mut Autocompletion<'_>);
-//@ // ASSUMED of every implementor (derive output): the completion is only used through its API
+//@ // Contract of every implementor.  PROVED for the two implementations that exist: the `#[derive(Command)]`
+//@ // template (module tmpl_autocomplete, for every list of names) and RawCommand (no names); ASSUMED of
+//@ // hand-written implementations and of the group composition emitted by `#[derive(CommandGroup)]`.
 //@ requires old(autocompletion).wf(),
 //@ ensures crate::autocomplete::ac_api_only(autocompletion),
+//@     // C11: exactly the continuations of the names that start with the typed word are merged, in order
+//@     final(autocompletion).cands@ == old(autocompletion).cands@ + conts(Self::names(), request.name()),   // [C11]
+//@     ac_inv(old(autocompletion).state(), old(autocompletion).cands@, old(autocompletion).room())
+//@         ==> ac_inv(final(autocompletion).state(), final(autocompletion).cands@, old(autocompletion).room()),   // [C11]
 }
 
 // trait is kept available so it's possible to use same where clause
